@@ -421,6 +421,15 @@ theorem registry_insert_get (r : Registry) (pkg path : Text) (src : Source) (q :
           simp [this]
         · simp [h2]
 
+theorem lstripSlash_head (r : Text) : (lstripSlash r).head? ≠ some '/' := by
+  induction r with
+  | nil => simp [lstripSlash]
+  | cons c cs ih =>
+    simp only [lstripSlash]
+    split
+    · exact ih
+    · rename_i h; simpa using h
+
 theorem isPrefixOf_append_self (a b : Text) : a.isPrefixOf (a ++ b) = true := by
   induction a with
   | nil => simp
